@@ -182,6 +182,12 @@ def eval_term(t, leaf):
         if v < 0 or v > m:
             raise Overflow(t)
         return v
+    if h in ("Eq", "Ne", "Lt", "Le", "Gt", "Ge") and len(t) >= 3:
+        a, b = eval_term(t[1], leaf), eval_term(t[2], leaf)
+        return int({"Eq": a == b, "Ne": a != b, "Lt": a < b, "Le": a <= b, "Gt": a > b, "Ge": a >= b}[h])
+    if h == "Not" and len(t) >= 2:
+        v = eval_term(t[1], leaf)
+        return int(not v) if v in (0, 1) else (~v) & ((1 << (BITS.get(t[2], 64) if len(t) > 2 else 64)) - 1)
     if h == "call" and t[1].endswith(("::from", "::into")) and len(t[2]) == 1:
         return eval_term(t[2][0], leaf)
     if h == "call" and FACTS is not None:
@@ -291,3 +297,90 @@ def spine_ops(t, out=None):
         if isinstance(x, tuple):
             spine_ops(x, out)
     return out
+
+
+# ---------------------------------------------------------------- gated evaluation (if-conversion of loop-free regions)
+def branch_conditions(body, c, bb, term_at):
+    """Conditions fixed on every path to `bb`, for two-way and multi-way switches:
+    [(guard block, term, ("is", v) | ("notin", (v..)) )] - a two-way test on a bool is ("is", 0) / ("notin", (0,))."""
+    out = []
+    for b in body.blocks:
+        if b.cleanup or b.term.k != "switch" or b.idx not in c.reach or b.idx == bb:
+            continue
+        t = b.term
+        vals = tuple(v for v, _ in t.targets)
+        edges = [(tgt, ("is", v)) for v, tgt in t.targets] + [(t.otherwise, ("notin", vals))]
+        tgts = [e for e, _ in edges]
+        for edge, cond in edges:
+            if tgts.count(edge) != 1 or len(c.pred[edge]) != 1:
+                continue
+            if not (c.dominates(edge, bb) or edge == bb):
+                continue
+            out.append((b.idx, term_at(b), cond))
+    return out
+
+
+def _cond_holds(t, cond, leaf):
+    s = cmp_sides(t)
+    v = int(eval_cmp(t, leaf)) if s else eval_term(t, leaf)
+    return v == cond[1] if cond[0] == "is" else v not in cond[1]
+
+
+def eval_gated(body, pt, local, use_bb, leaf, use_idx=None):
+    """Value of `local` as seen at (use_bb, use_idx) for one valuation of the inputs, in loop-free code: among the
+    definitions of the local whose branch conditions hold under the valuation, the one latest in dominance order
+    (gated single assignment).  Raises NotEvaluable when the choice is not determined."""
+    c = pt.c
+    defs = []
+    for blk in body.blocks:
+        if blk.cleanup or blk.idx not in c.reach:
+            continue
+        for i, s in enumerate(blk.stmts):
+            if s.k == "assign" and not s.place.proj and s.place.local == local:
+                if blk.idx == use_bb and use_idx is not None and i >= use_idx:
+                    continue
+                if blk.idx != use_bb and use_bb not in c.reachable_from(blk.idx):
+                    continue
+                defs.append((blk.idx, i, s))
+    if c.loop_blocks_of(use_bb) and any(c.loop_blocks_of(d[0]) for d in defs):
+        raise NotEvaluable(("loop", local))
+
+    def term_at(b):
+        return pt.at(b.idx, None).of_operand(b.term.discr)
+    # conditions on the path to the use hold by assumption ("the value at the use, given that the use is reached")
+    use_conds = {(gb, cond) for (gb, t, cond) in branch_conditions(body, c, use_bb, term_at)}
+    live = []
+    for (bb, i, s) in defs:
+        okk = True
+        for (gb, t, cond) in branch_conditions(body, c, bb, term_at):
+            try:
+                if not _cond_holds(t, cond, leaf):
+                    okk = False
+                    break
+            except NotEvaluable:
+                if (gb, cond) in use_conds:
+                    continue
+                raise
+        if okk:
+            live.append((bb, i, s))
+    if not live:
+        if 1 <= local <= body.arg_count:
+            return leaf(("arg", local, body.locals[local].name))
+        raise NotEvaluable(("undefined", local))
+    best = live[0]
+    for d in live[1:]:
+        if (d[0] == best[0] and d[1] > best[1]) or (d[0] != best[0] and c.dominates(best[0], d[0])):
+            best = d
+        elif (d[0] == best[0]) or c.dominates(d[0], best[0]):
+            continue
+        else:
+            raise NotEvaluable(("ambiguous", local))
+    bb, i, s = best
+    rv = s.rv
+    if rv.k == "use" and rv.op.place is not None and not rv.op.place.proj:
+        return eval_gated(body, pt, rv.op.place.local, bb, leaf, i)
+    t = pt.at(bb, i).of_rvalue(rv, bb)
+
+    def leaf2(q):
+        return leaf(q)
+    return eval_term(t, leaf2)
